@@ -93,7 +93,8 @@ def to_config(case):
 
 def to_impl(case):
     return {"config": to_config(case), "family": case["family"], "revision": case["revision"], "target_memory": case["tm"],
-            "deks": [c["blob"]["dek"] if c["blob"] else None for c in case["containers"]], "flips": case.get("flips", [])}
+            "deks": [c["blob"]["dek"] if c["blob"] else None for c in case["containers"]], "flips": case.get("flips", []),
+            "history": bool(case.get("history")), "alt_image": data_name(case["alt"]) if case.get("alt") else None}
 
 
 # ------------------------------------------------------------------------------------------------ case -> model term
@@ -453,6 +454,79 @@ def oracle(case, res, keys, fam_info, consts):
     return bad
 
 
+def mask_signatures(b, case, csize):
+    """The export with the signature data of every container zeroed (RSA-PSS salts / ECDSA nonces are fresh on every signing)."""
+    m = bytearray(b)
+    for k in range(len(case["containers"])):
+        co = k * csize
+        if co + 16 > len(b) or b[co + 3] != 0x87:
+            continue
+        rc = read_container(b, co)
+        if "sig" in rc:
+            g = co + rc["sbo"] + rc["sb"]["sig_off"] + 8
+            m[g:g + len(rc["sig"]["data"])] = bytes(len(rc["sig"]["data"]))
+    return bytes(m)
+
+
+def history_oracle(case, res, keys, fam_info, consts):
+    """Operation sequences on one object: a second export is an export. Returns (signature, message, operations)."""
+    bad, h = [], res.get("history")
+    if not h or res["status"] != "ok":
+        return bad
+    csize = consts["csize"][case["v2"]]
+    first = bytes.fromhex(res["export"])
+    base = ["AHABImage.load_from_config(config)", "update_fields()", "export()"]
+    # (1) second update_fields()+export() of the same object
+    sec = h["second"]
+    ops = base + ["update_fields()", "export()"]
+    if sec["status"] != "ok":
+        bad.append((f"history:second-export-differs:refused-{sec['status']}", f"the second export of the same object fails ({sec.get('exc')})", ops))
+    else:
+        b2 = bytes.fromhex(sec["export"])
+        if mask_signatures(b2, case, csize) != mask_signatures(first, case, csize):
+            d = next((i for i in range(min(len(b2), len(first))) if mask_signatures(b2, case, csize)[i] != mask_signatures(first, case, csize)[i]), None)
+            bad.append(("history:second-export-differs:bytes", f"second export differs from the first outside the signature data "
+                        f"(lengths {len(first)}/{len(b2)}, first difference at {d if d is None else hex(d)})", ops))
+        res2 = {"status": "ok", "export": sec["export"], "containers": sec.get("containers"), "verify_errors": [], "flips": [],
+                "parse_status": "ok" if isinstance(sec.get("parse"), dict) else str(sec.get("parse")),
+                "parsed_equal": isinstance(sec.get("parse"), dict) and sec["parse"]["equal"],
+                "parsed_verify_errors": sec["parse"]["verify_errors"] if isinstance(sec.get("parse"), dict) else [], "reexport": True}
+        for sig, msg in oracle(dict(case, flips=[]), res2, keys, fam_info, consts):
+            if not sig.endswith(":size-aligned-ciphertext"):
+                bad.append((f"history:second-export-differs:oracle:{sig}", "on the second export: " + msg, ops))
+    # (2) add_container after a first export == fresh object with all containers
+    ac = h.get("add_container")
+    if ac:
+        ops = ["load_from_config(config without the last container)", "update_fields()", "export()",
+               "add_container(container_type.load_from_config(chip_config, last container))", "update_fields()", "export()"]
+        if ac["status"] != "ok":
+            bad.append((f"history:stale-after-change:add_container:refused-{ac['status']}",
+                        f"adding the last container after a first export is refused ({ac.get('exc')}) although the full configuration exports", ops))
+        elif mask_signatures(bytes.fromhex(ac["export"]), case, csize) != mask_signatures(first, case, csize):
+            bad.append(("history:stale-after-change:add_container", "export after add_container differs from the export of a fresh object "
+                        "configured with all containers", ops))
+    # (3) image replaced after a first export: equal to a fresh object with that image, or refused -- never a different file
+    ch, fr = h.get("change_image"), h.get("change_image_fresh")
+    if ch and fr and fr["status"] == "ok":
+        ops = base + ["ahab_containers[0].image_array[0].image = <other image>", "update_fields()", "export()"]
+        if ch["status"] == "ok" and mask_signatures(bytes.fromhex(ch["export"]), case, csize) != mask_signatures(bytes.fromhex(fr["export"]), case, csize):
+            bad.append(("history:stale-after-change:image", "export after replacing an image is neither refused nor the export of a fresh "
+                        "object configured with the new image", ops))
+        elif ch["status"] not in ("ok", "e1"):
+            bad.append((f"history:stale-after-change:image:crash-{ch['status']}", f"export after replacing an image crashes ({ch.get('exc')})", ops))
+        rh = h.get("change_image_rehash")
+        if rh:
+            ops2 = base + ["entry = ahab_containers[0].image_array[0]", "entry.image = <other image of the same length>", "entry.image_hash = None",
+                           "update_fields()", "export()"]
+            if rh["status"] != "ok":
+                bad.append((f"history:stale-after-change:image-rehash:refused-{rh['status']}",
+                            f"export after replacing an image and clearing its hash fails ({rh.get('exc')})", ops2))
+            elif mask_signatures(bytes.fromhex(rh["export"]), case, csize) != mask_signatures(bytes.fromhex(fr["export"]), case, csize):
+                bad.append(("history:stale-after-change:image-rehash", "export after replacing an image (hash cleared) differs from the export of "
+                            "a fresh object configured with the new image", ops2))
+    return bad
+
+
 # ------------------------------------------------------------------------------------------------ case generation
 def gen_cases(tier, rng, fams, extract, keys):
     thorough = tier == "thorough"
@@ -652,6 +726,20 @@ def gen_cases(tier, rng, fams, extract, keys):
         pos += [rng.randrange(144 + 40, signed_end) for _ in range(60 if thorough else 14)] + list(range(signed_end - 6, signed_end))
         case["flips"] = [[q, rng.randrange(8)] for q in pos] + [[consts["start"][True][False] + rng.randrange(512), rng.randrange(8)]]
         S["signed containers, single-bit corruption"].append(case)
+    # operation histories (second export, add_container, image replaced) on a few artifacts of every stream
+    for name, cs in S.items():
+        if name.startswith("invalid"):
+            continue
+        good = [c for c in cs if c.get("must") == "export"]
+        multi = [c for c in good if len(c["containers"]) >= 2]
+        for c in (good[:2] + multi[:1]) if not thorough else (good[:8] + multi[:4]):
+            c["history"] = True
+            im = c["containers"][0]["images"][0]
+            if not im["enc"]:
+                # same length, other content; a multiple of the image size alignment, because the image setter pads only in an
+                # unlocked container (a shorter replacement in a locked container legitimately keeps its exact length)
+                im["data"][2] = 1024 if im["data"][2] > 512 else 512
+                c["alt"] = [(im["data"][0] + 17) % 256, im["data"][1], im["data"][2]]
     return S, consts
 
 
@@ -722,11 +810,10 @@ def run(tier):
             flat.append(c)
             owner.append(name)
     for c in flat:
-        for k in c["containers"]:
-            for im in k["images"]:
-                p = os.path.join(WORKDIR, data_name(im["data"]))
-                if not os.path.exists(p):
-                    open(p, "wb").write(data_bytes(im["data"]))
+        for d in [im["data"] for k in c["containers"] for im in k["images"]] + ([c["alt"]] if c.get("alt") else []):
+            p = os.path.join(WORKDIR, data_name(d))
+            if not os.path.exists(p):
+                open(p, "wb").write(data_bytes(d))
     # (T2) implementation, sharded over processes
     nproc = 8
     shards = [flat[i::nproc] for i in range(nproc)]
@@ -749,6 +836,20 @@ def run(tier):
                         {"kind": "impl-oracle", "case": c, "config": to_config(c), "impl_result": rr,
                          "how": "write the key/image files named in the config (tools/props/c06.keys.json, byte i = seed+i*step), "
                                 "AHABImage.load_from_config(config).update_fields(); export(); parse(); verify()"})
+    nhist, hist_outcomes = 0, {}
+    for c, r in zip(flat, results):
+        if not c.get("history") or not r.get("history"):
+            continue
+        nhist += 1
+        for key in ("second", "add_container", "change_image", "change_image_rehash"):
+            if r["history"].get(key):
+                hist_outcomes[f"{key}:{r['history'][key]['status']}"] = hist_outcomes.get(f"{key}:{r['history'][key]['status']}", 0) + 1
+        for sig, msg, ops in history_oracle(c, r, keys, extract["families"][c["fam"]], consts):
+            rep.failing(sig, "implementation violates the C06 property on a later export of the same object: " + msg,
+                        {"kind": "impl-history", "operations": ops, "case": c, "config": to_config(c),
+                         "history": {k: {kk: vv for kk, vv in v.items() if kk not in ("export", "containers")}
+                                     for k, v in r["history"].items()}})
+    rep.coverage["history"] = {"objects": nhist, "outcomes": hist_outcomes}
     # correspondence with the Coq model (container version 1)
     ndis, nmodel = 0, 0
     if model_ok:
